@@ -61,7 +61,7 @@ def movie_case(rng, kind="movie", nmax=30, big=False):
                 lines=[f"xtract plan {1 if exe else 0} {order} {h}", "xtract safety"], expect=[exp, SAFE])
 
 
-SAFE = canon({"outside_bin": [], "second_run_same": True, "tree_outside_bin_changed": False})
+SAFE = canon({"outside_bin": [], "second_run_same": True, "tree_outside_bin_changed": False, "stale_files_replaced": True})
 
 
 def mutated_case(rng):
@@ -164,7 +164,14 @@ def run_main(data: bytes, order: str, exe: bool):
         bindir = root / "out" / "bin"
         before = tree_digest(root, bindir)
         results = []
-        for _ in range(2):
+        for run_no in range(3):
+            if run_no == 2 and bindir.is_dir():
+                # third run over STALE content: every file keeps its name and size but gets different bytes
+                # (an earlier revision of the movie extracted into the same folder); the run must restore the payloads
+                for p in bindir.rglob("*"):
+                    if p.is_file():
+                        b = p.read_bytes()
+                        p.write_bytes(bytes(x ^ 0xFF for x in b))
             import drxtract.riffxtract as rx
             rx = importlib.reload(rx)
             old_argv, old_cwd = sys.argv, os.getcwd()
@@ -189,10 +196,11 @@ def run_main(data: bytes, order: str, exe: bool):
         after = tree_digest(root, bindir)
         outcome, files, ev = results[0]
         rb = os.path.realpath(bindir)
-        outside = sorted({f"{k}:{p}" for k, p in ev + results[1][2] if not (os.path.realpath(os.path.join(root / "side", p)) == rb or os.path.realpath(os.path.join(root / "side", p)).startswith(rb + os.sep))})
+        outside = sorted({f"{k}:{p}" for k, p in ev + results[1][2] + results[2][2] if not (os.path.realpath(os.path.join(root / "side", p)) == rb or os.path.realpath(os.path.join(root / "side", p)).startswith(rb + os.sep))})
         outside = [o.replace(str(root), "<root>") for o in outside]
         plan = {"outcome": outcome, "writes": sum(1 for k, _ in ev if k == "write"), "files": files}
-        safety = {"outside_bin": outside, "second_run_same": results[0][:2] == results[1][:2], "tree_outside_bin_changed": before != after}
+        safety = {"outside_bin": outside, "second_run_same": results[0][:2] == results[1][:2], "tree_outside_bin_changed": before != after,
+                  "stale_files_replaced": results[0][:2] == results[2][:2]}
         return plan, safety
     finally:
         shutil.rmtree(root, ignore_errors=True)
